@@ -104,6 +104,10 @@ def check(model, rep, tier):
   rep.rule('HYG-SCOPE-GROWS', 'names recorded in a scope are never removed from it '
            '(reserved sets are read off the scopes)', floor=1)
   _c08.scope_grows(model, rep, 'HYG-SCOPE-GROWS')
+  rep.depends('C08', ['BIND-EXH', 'PARAMS'],
+              'a parameter recorded in the scope that defines a nested function hides '
+              'that function\'s free reads from the enclosing scopes, whose referenced '
+              'sets are the reserved sets', site_filter=lambda site: 'arg' in site)
 
   # ---------------------------------------------------------------- HYG-RESERVED
   n_sites = 0
